@@ -103,7 +103,7 @@ def _case(draw):
     if draw(st.integers(0, 3)) == 0:
         return draw(_lib_case())
     return {
-        "prog": draw(co2.programs()),
+        "prog": draw(co2.programs(profile={"recursion": True})),
         "hist": draw(co2.histories(30)),
         "choices": draw(st.lists(st.integers(0, 3), max_size=3)),
     }
@@ -328,6 +328,8 @@ def prop(case):
         labels.append("library")
     elif any(f.get("loop") for f in case["prog"]["flows"]):
         labels.append("loops")
+    if case.get("prog") and co2.has_recursion(case["prog"]):
+        labels.append("recursive-flow-calls")
     if smh.CHOOSER.used:
         labels.append("tie-break-used")
     labels.append("len>=10" if fed >= 10 else "len<10")
